@@ -150,6 +150,12 @@ def run(chk, facts, tier, only=None):
     def r6():
         de_rules.rule_unrolled(chk, facts)
 
+    def shared_rules():
+        import c05, c07
+        chk.include(c05, "C05.R1", "C02.R7", facts)     # references: wire <: expected decided as the spec's rules decide it
+        chk.include(c05, "C05.R3", "C02.R8", facts)     # ... with a sound memo (a non-subtype reference fails)
+        chk.include(c07, "C07.R3", "C02.R9", facts)     # a failed coercion under opt restores the whole decoder state
+
     for rid, desc, fn in (("C02.R1", "every wire read is preceded by tests of both the expected and the wire type", r1),
                           ("C02.R2", "the optional-omission set is {opt, null, reserved} at every site that implements it", r2),
                           ("C02.R3", "back-tracking below opt happens only for coercion (subtype) errors", r3),
@@ -159,6 +165,8 @@ def run(chk, facts, tier, only=None):
         if only and only != rid:
             continue
         chk.run_rule(rid, desc, fn)
+    if not only or only in ("C02.R7", "C02.R8", "C02.R9"):
+        shared_rules()
 
 
 def all_pat_paths(p):
